@@ -11,7 +11,7 @@ THEOREMS = ['Refine.C08_process_refines', 'Refine.C09_members_order_free', 'Refi
             'Cv.C08_process_concrete', 'Cv.C08_processUnits', 'Cv.C08_order_irrelevant', 'Cv.sys_local', 'Cv.convOut_congr', 'Cv.linkOf_congr', 'Cv.reads_lower', 'Cv.link_higher',
             'Cv.C08_priorities', 'Cv.C08_service_suffixes', 'Conform.sorting_priority', 'Conform.service_suffix',
             'Cv.fin_of_mem', 'Cv.C08_table_service', 'Cv.C08_table_missing', 'Cv.C08_table_volume', 'Cv.C08_volume_published_name', 'Cv.C08_table_network', 'Cv.C08_table_image',
-            'Cv.C08_table_build', 'Cv.C08_table_container']
+            'Cv.C08_table_build', 'Cv.C08_table_container', 'Cv.C08_suffixes', 'Cv.C08_service_name_formula', 'Cv.C08_network_name_formula', 'Cv.C08_build_name_formula']
 ASSUMPTIONS = [
     'Refine.* is proved for every system satisfying Refine.Local; Cv.sys_local proves Local for the concrete loop model Cv.sys (the model that answers the convert op): every converter model reads the name table only at its static read set (congruence lemmas for all handlers and the seven converters), whatever it reads is published by a strictly lower priority or never rewritten, a container links only to a .pod, which sorts later. Hypothesis kept: the units have supported extensions (Loadable — what is_extension_supported guarantees at discovery) and distinct file names (first-seen-wins, C13)',
     'the concrete loop model is tied to the code by the convert correspondence on generated unit sets in sorted *and* unsorted orders (Refine.step of Cv.sys is what the driver executes); the converters\' use of the table is therefore modelled, not verified in Rust',
